@@ -491,8 +491,20 @@ def run_one(tree, binding, ctxname):
     if any(k[0] == "_simplify_up" and k[1] == "Filter" and k[3] not in FILTER_RULE_CLASSES | {"Projection", "Index"} for k in ev):
         c["rule_or_factoring"] = c.get("rule_or_factoring", 0) + 1
     if is_pq:
-        rp = [x for x in opt.expr.walk() if type(x).__name__.startswith("ReadParquet")]
-        rp += [x.operand("_expr") for x in opt.expr.walk() if type(x).__name__ in ("FusedIO", "FusedParquetIO")]
+        def _readers(e):
+            nodes = list(e.walk())
+            for x in list(nodes):
+                if type(x).__name__ == "Fused":
+                    nodes += list(x.exprs)
+            return [x for x in nodes if type(x).__name__.startswith("ReadParquet")] + [x.operand("_expr") for x in nodes if type(x).__name__ in ("FusedIO", "FusedParquetIO")]
+
+        rp = _readers(opt.expr)
+        try:
+            # compute() optimizes the (already optimized) collection once more; that is the plan that really ran
+            with M.Guard():
+                rp += _readers(opt.optimize().expr)
+        except Exception:
+            pass
         plan_classes += [type(x).__name__ for x in rp]
         user = [("key", ">=", 1)] if ":userfilter:" in ctxname else None
         flt_now = rp[0].operand("filters") if rp else None
@@ -524,7 +536,7 @@ def run_one(tree, binding, ctxname):
             # mechanism fields: which comparison operators did the reader absorb, and are the missing rows exactly
             # rows whose `!=`-compared column is null?
             try:
-                flt = rp[0].operand("filters") or []
+                flt = next((x.operand("filters") for x in rp if x.operand("filters")), None) or []
                 tuples = [t for conj in flt for t in (conj if isinstance(conj, (list, tuple)) and conj and isinstance(conj[0], (list, tuple)) else [conj])]
                 ne_cols = sorted({t[0] for t in tuples if t[1] == "!="})
                 d["reader_filter_ops"] = sorted({t[1] for t in tuples})
